@@ -6,6 +6,10 @@ Extracted (and nothing else):
   * the length constants of `write_key` in include/photospline/detail/aux.h
     (`keylen<=9`, `maxdatalen=68`, `maxdatalen=80-(13+keylen-1)`, and the optional guard
     `if(13+keylen-1>=80)` that rejects keys leaving no room for a value),
+  * the name and character tests of `write_key` added by fixes/C16-5.diff, each optional (absent in the
+    unrepaired source): `if(keylen==1 || key[0]==' ' || key[keylen-2]==' ')`, the second name test
+    (a disjunction of `strncmp("lit",key,n)==0` / `strcmp("lit",key)==0`), the range test
+    `key[i]<LO || key[i]>HI` in the long-key loop and `valuedata[i]<LO || valuedata[i]>HI` on the value,
   * FLEN_KEYWORD / FLEN_VALUE / FLEN_CARD of the installed cfitsio.
 Fails closed (exit 2, nothing written) when a construct cannot be parsed exactly.
 usage: gen_c16.py <repo> <out.lean>
@@ -55,6 +59,36 @@ def main():
     card, over = one(r"maxdatalen=(\d+)-\((\d+)\+keylen-1\);", wk, "HIERARCH maxdatalen")
     guard = one(r"if\((\d+)\+keylen-1>=(\d+)\)", wk, "long key guard", optional=True)
     if len(re.findall(r"maxdatalen=", wk)) != 2: die("unexpected additional assignment to maxdatalen")
+    # --- tests added by fixes/C16-5.diff (all optional; order of the statements is checked below) ---
+    edge = one(r"if\(keylen==1\|\|key\[0\]==''\|\|key\[keylen-2\]==''\)\s*throw", wk, "empty/edge-blank test", optional=True)
+    m2 = re.findall(r"if\(((?:str(?:ncmp\(\"[^\"\\]*\",key,\d+\)|cmp\(\"[^\"\\]*\",key\))==0(?:\|\|)?\s*)+)\)\s*throwstd::runtime_error\(\"Cannotsetkeywithreservedname\"", wk)
+    if len(m2) > 1: die("more than one second name test")
+    wpre, wexact = [], []
+    if m2:
+        # literals are taken from the text with blanks intact (wk has blanks removed)
+        raw = re.search(r"if\s*\(\s*((?:\s*str(?:ncmp\(\s*\"[^\"\\]*\"\s*,\s*key\s*,\s*\d+\s*\)|cmp\(\s*\"[^\"\\]*\"\s*,\s*key\s*\))\s*==\s*0\s*(?:\|\|)?\s*)+)\)\s*throw\s+std::runtime_error\(\"Cannot set key with reserved name \"", m.group(0))
+        if not raw: die("second name test (raw text)")
+        cond = raw.group(1)
+        wpre = [(a, int(b)) for a, b in re.findall(r'strncmp\(\s*"([^"\\]*)"\s*,\s*key\s*,\s*(\d+)\s*\)\s*==\s*0', cond)]
+        wexact = re.findall(r'strcmp\(\s*"([^"\\]*)"\s*,\s*key\s*\)\s*==\s*0', cond)
+        rest2 = re.sub(r'str(?:ncmp\(\s*"[^"\\]*"\s*,\s*key\s*,\s*\d+\s*\)|cmp\(\s*"[^"\\]*"\s*,\s*key\s*\))\s*==\s*0', "@", cond)
+        if re.sub(r"\s+", "", rest2) != "||".join("@" * (len(wpre) + len(wexact))): die("second name test is not a plain disjunction: %r" % rest2)
+    keyrange = one(r"if\(key\[i\]<(\d+)\|\|key\[i\]>(\d+)\)\s*throw", wk, "key character range test", optional=True)
+    valrange = one(r"for\(size_ti=0;i<valuedata\.size\(\);i\+\+\)\{\s*if\(valuedata\[i\]<(\d+)\|\|valuedata\[i\]>(\d+)\)\s*throw", wk, "value character range test", optional=True)
+    # positions: edge test and second name test between keylen and the short/long split; the key range test first in the
+    # long loop (before the '=' test); the value range test between valuedata and the length test
+    def pos(rx): 
+        mm = re.search(rx, wk); return mm.start() if mm else None
+    p_keylen, p_split = pos(r"size_tkeylen=strlen"), pos(r"if\(keylen<=\d+\)\{")
+    p_eq, p_vd, p_len = pos(r"if\(key\[i\]=='='\)"), pos(r"std::stringvaluedata=ss\.str\(\);"), pos(r"if\(storedlen>maxdatalen\)")
+    if None in (p_keylen, p_split, p_eq, p_vd, p_len): die("landmarks of write_key")
+    if edge is not None and not (p_keylen < pos(r"if\(keylen==1\|\|") < p_split): die("position of the empty/edge-blank test")
+    if m2 and not (p_keylen < wk.find(m2[0]) < p_split): die("position of the second name test")
+    if edge is not None and m2 and not (pos(r"if\(keylen==1\|\|") < wk.find(m2[0])): die("order of the edge-blank and second name tests")
+    if keyrange is not None:
+        pk = pos(r"if\(key\[i\]<\d+\|\|key\[i\]>\d+\)\s*throw")
+        if not (p_split < pk < p_eq) or "else{" not in wk[p_split:pk]: die("position of the key character range test")
+    if valrange is not None and not (p_vd < pos(r"if\(valuedata\[i\]<") < p_len): die("position of the value character range test")
     hdr = open("/usr/include/fitsio.h").read()
     flen = {}
     for n in ("FLEN_KEYWORD", "FLEN_VALUE", "FLEN_CARD"):
@@ -78,6 +112,16 @@ def main():
     L.append("def hierOverhead : Nat := %d" % int(over))
     L.append("/-- `if(B+keylen-1>=A) throw` in front of the subtraction (absent in the unrepaired source) -/")
     L.append("def longKeyGuard : Option (Nat × Nat) := %s" % ("none" if guard is None else "some (%d, %d)" % (int(guard[0]), int(guard[1]))))
+    L.append("/-- `if(keylen==1 || key[0]==' ' || key[keylen-2]==' ') throw` in front of the syntax tests (absent in the unrepaired source) -/")
+    L.append("def edgeBlankCheck : Bool := %s" % ("true" if edge is not None else "false"))
+    L.append("/-- the `strncmp(literal, key, n) == 0` disjuncts of the second name test of `write_key` (absent in the unrepaired source) -/")
+    L.append("def writeReservedPrefixes : List (List Char × Nat) := [" + ", ".join("(%s, %d)" % (lean_chars(a), b) for a, b in wpre) + "]")
+    L.append("/-- the `strcmp(literal, key) == 0` disjuncts of the second name test of `write_key` -/")
+    L.append("def writeReservedExact : List (List Char) := [" + ", ".join(lean_chars(a) for a in wexact) + "]")
+    L.append("/-- `if(key[i]<LO || key[i]>HI) throw`, first test of the long-key loop (absent in the unrepaired source) -/")
+    L.append("def keyCharRange : Option (Nat × Nat) := %s" % ("none" if keyrange is None else "some (%d, %d)" % (int(keyrange[0]), int(keyrange[1]))))
+    L.append("/-- `if(valuedata[i]<LO || valuedata[i]>HI) throw` on every character of the value text (absent in the unrepaired source) -/")
+    L.append("def valueCharRange : Option (Nat × Nat) := %s" % ("none" if valrange is None else "some (%d, %d)" % (int(valrange[0]), int(valrange[1]))))
     L.append("def flenKeyword : Nat := %d" % flen["FLEN_KEYWORD"])
     L.append("def flenValue : Nat := %d" % flen["FLEN_VALUE"])
     L.append("def flenCard : Nat := %d" % flen["FLEN_CARD"])
@@ -87,7 +131,8 @@ def main():
     old = open(out).read() if os.path.exists(out) else None
     if old != text:
         with open(out, "w") as f: f.write(text)
-    print("gen_c16: %d reserved prefixes; constants %d %d %d %d guard=%s%s" % (len(pairs), short_keylen, short_max, int(card), int(over), guard, "" if old == text else " (file updated)"))
+    print("gen_c16: %d reserved prefixes; constants %d %d %d %d guard=%s; write_key name tests: edge=%s prefixes=%s exact=%s keyrange=%s valuerange=%s%s" % (len(pairs), short_keylen, short_max, int(card), int(over), guard,
+          edge is not None, wpre, wexact, keyrange, valrange, "" if old == text else " (file updated)"))
 
 if __name__ == "__main__":
     main()
